@@ -282,6 +282,9 @@ m('terminal-callback-raise-leaves-stream (revert fix)', ['C07'], 'rsocket/handle
   "            try:\n                self._subscriber.on_error(error_frame_to_exception(frame))\n            finally:\n                self._finish_stream()",
   "            self._subscriber.on_error(error_frame_to_exception(frame))\n            self._finish_stream()")
 
+m('error-data-decoded-strictly (revert fix)', ['C08'], 'rsocket/frame.py',
+  "    message = frame.data.decode('utf-8', errors='replace')\n", "    message = frame.data.decode('utf-8')\n")
+
 for _m in M:
     if _m['name'] in EQUIVALENT:
         _m['equivalent'] = EQUIVALENT[_m['name']]
